@@ -30,11 +30,17 @@ def configs(tier):
             out.append(dict(group="record", L=L, ref="".join(ref), n_alt=n_alt))
     for ref in (["AAA", "ACA", "CAC"] if tier == "quick" else ["".join(r) for r in itertools.product("AC", repeat=3)]):
         out.append(dict(group="assemble", L=3, ref=ref))
+    # whole pipeline at record level: the text line written by assemble is re-read and called by call / call-exact
+    from checks import c13
+
+    for name in (c13.QUICK if tier == "quick" else [s_ for s_ in c13.SCENARIOS if s_ != "dupes"]):
+        for prog in ("call", "call-exact"):
+            out.append(dict(group="pipeline", scenario=name, prog=prog, report=3))
     return out
 
 
 def weight(c):
-    return 27 ** c.get("n_alt", 2)
+    return 27 ** c.get("n_alt", 2) if c["group"] != "pipeline" else 2000
 
 
 class _Record:
@@ -58,7 +64,7 @@ def run_config(c, col):
     warnings.simplefilter("ignore")
     prof = E.Profile()
     with prof:
-        (_run_record if c["group"] == "record" else _run_assemble)(c, col)
+        {"record": _run_record, "assemble": _run_assemble, "pipeline": _run_pipeline}[c["group"]](c, col)
     col.functions |= set(prof.names())
     E.cfg.concrete_floats = False
 
@@ -126,6 +132,124 @@ def _run_record(c, col):
             col.fail(site, problems[0][0], witness=dict(ref=ref, alts=alts, problems=[p[1] for p in problems]), desc=problems[0][1])
         else:
             col.ok("record -> LocusPrior -> integer alleles -> strings is the identity; positions/numbering as specified (bases solver-enumerated)")
+
+
+def _record_of_line(line):
+    """what pysam hands to call / call-exact for a record line written by assemble (INFO flags as True, Number=. fields as tuples)"""
+    f = line.rstrip("\n").split("\t")
+    info = {}
+    for item in f[7].split(";"):
+        k, eq, v = item.partition("=")
+        if not eq:
+            info[k] = True
+        elif k in ("SNVPOS",):
+            info[k] = tuple(int(x) for x in v.split(",")) if v != "." else ()
+        elif k in ("AFP", "ACP", "AOP", "AOPSUM", "AFPRIOR", "SNVDP", "AC"):
+            info[k] = tuple(float(x) if x != "." else None for x in v.split(","))
+        else:
+            info[k] = v
+    rec = _Record(f[3], [] if f[4] == "." else f[4].split(","), info=info)
+    rec.chrom, rec.start, rec.id = f[0], int(f[1]) - 1, f[2]
+    rec.stop = rec.start + len(f[3])
+    return rec, f
+
+
+def _run_pipeline(c, col):
+    """assemble's formatted record -> LocusPrior.from_variant_record -> call / call-exact -> formatted record:
+    same CHROM/POS/REF/ALT, and every genotype complete unless the record carries NOA / AF0"""
+    from checks import c07
+
+    E.cfg.concrete_floats = True
+    prog_name = c["prog"]
+    lo = E.load("mchap.io.loci")
+    FORMAT = E.load("mchap.io.vcf.formatfields")
+    cc = E.load("mchap.calling.classes")
+    if prog_name == "call":
+        mod = E.load("mchap.application.call")
+    else:
+        E.use_summaries(False)
+        E.reset_modules()
+        lo = E.load("mchap.io.loci")
+        FORMAT = E.load("mchap.io.vcf.formatfields")
+        cc = E.load("mchap.calling.classes")
+        mod = E.load("mchap.application.call_exact")
+    asm_body, infof, fmtf, samples, scen = c07._asm_driver(dict(c, group="asm-line"))
+    args = E.load("mchap.application.arguments")
+    site = "mchap.application.%s.program.call_sample_genotypes" % prog_name.replace("-", "_")
+    mod.minimum_error_correction = lambda calls, haps: rnp.zeros(1)
+    ploidy = {s_: len(gs[0]) for s_, gs in zip(samples, scen)}
+
+    def body(ctx):
+        line, thr, adata = asm_body(ctx)
+        rec, f = _record_of_line(line)
+        locus = lo.LocusPrior.from_variant_record(rec, frequency_tag="AFP" if int(E.SymInt(E.fresh_int(ctx, "usefreq", 0, 1))) else None)
+        captured = {}
+
+        class FakeMCMC:
+            def __init__(self, **kw):
+                captured.update(kw)
+
+            def fit(self, reads, read_counts):
+                n = len(captured["haplotypes"])
+                P = captured["ploidy"]
+                g = rnp.zeros((1, 2, P), dtype=rnp.int8)
+                a = int(E.SymInt(E.fresh_int(ctx, "g%s" % reads, 0, n - 1)))
+                g[0, :, -1] = a
+                return cc.GenotypeAllelesMultiTrace(g, rnp.zeros((1, 2)), n)
+
+        if prog_name == "call":
+            mod.CallingMCMC = FakeMCMC
+        prog = mod.program.__new__(mod.program)
+        cinfo, cfmt = args.parse_report_fields(["AFP", "INFO/AFP", "AFPRIOR"])
+        prog.info_fields, prog.format_fields = list(cinfo), list(cfmt)
+        for k, v in dict(mcmc_steps=2, mcmc_chains=1, random_seed=1, mcmc_burn=0, mcmc_incongruence_threshold=0.6, samples=samples, sample_ploidy=dict(ploidy),
+                         sample_inbreeding={s_: 0.0 for s_ in samples}, precision=3).items():
+            setattr(prog, k, v)
+        data = prog._locus_data(locus, {s_: [] for s_ in samples})
+        n_pos = len(locus.positions)
+        for s_ in samples:
+            data.read_calls[s_] = rnp.zeros((1, n_pos), dtype=int)
+            if prog_name == "call":
+                data.read_dists[s_] = s_
+                data.read_counts[s_] = None
+            else:
+                nmax = max([len(a_) for a_ in locus.alleles] + [1])
+                data.read_dists[s_] = rnp.full((1, n_pos, nmax), 1.0 / nmax)
+                data.read_counts[s_] = rnp.array([1])
+            data.sampledata[FORMAT.DP][s_] = 7.0
+            data.sampledata[FORMAT.RCOUNT][s_] = 9
+            data.sampledata[FORMAT.RCALLS][s_] = 12
+            data.sampledata[FORMAT.SNVDP][s_] = rnp.full(n_pos, 7.0)
+        prog.call_sample_genotypes(data)
+        prog.sumarise_vcf_record(data)
+        return line, data.format_vcf_record()
+
+    first = True
+    for pr in E.explore(body, stats=col.stats):
+        if pr.exc is not None:
+            e = pr.exc.__cause__ or pr.exc
+            col.fail(site, "exception", shape=dict(prog=prog_name), witness=dict(exc=repr(e), model=E.model_dict(E.prove(pr.ctx, False).model), scenario=c["scenario"]),
+                     desc="%s cannot process a record written by assemble: %r" % (prog_name, e))
+            continue
+        col.path()
+        if first:
+            col.reachable(pr.ctx)
+            first = False
+        line, out = pr.value
+        fa, fo = line.split("\t"), out.split("\t")
+        problems = []
+        if fa[:2] + fa[3:5] != fo[:2] + fo[3:5]:
+            problems.append(("record-identity", "%s wrote CHROM/POS/REF/ALT %s for the assemble record %s" % (prog_name, fo[:2] + fo[3:5], fa[:2] + fa[3:5])))
+        flt = fo[6].split(";")
+        gts = [col_.split(":")[0] for col_ in fo[9:]]
+        if not ({"NOA", "AF0"} & set(flt)) and any("." in g.split("/") for g in gts):
+            problems.append(("incomplete-genotype", "%s wrote GT %s without NOA/AF0 (FILTER=%s) for the assemble record %s" % (prog_name, gts, fo[6], "\t".join(fa[:8])[:200])))
+        if "REFMASKED" in fa[7].split(";") and any("0" in g.split("/") for g in gts):
+            problems.append(("masked-ref-called", "assemble masked the reference but %s calls allele 0: %s" % (prog_name, gts)))
+        if problems:
+            col.fail(site, problems[0][0], shape=dict(prog=prog_name), witness=dict(assemble=line[:400], out=out[:400], model=E.model_dict(E.prove(pr.ctx, False).model), scenario=c["scenario"]), desc=problems[0][1])
+        else:
+            col.ok("%s re-reads the assemble record: same CHROM/POS/REF/ALT; genotypes complete unless NOA/AF0; masked reference never called" % prog_name)
 
 
 def _run_assemble(c, col):
@@ -198,6 +322,10 @@ def replay(v):
     warnings.simplefilter("ignore")
     c = v["config"]
     w = v["witness"]
+    if c["group"] == "pipeline":
+        from checks import wiring
+
+        return wiring.replay_real(v, _run_pipeline)
     try:
         if c["group"] == "record":
             m = w.get("model") or {}
